@@ -8,6 +8,7 @@ from vcheck.props.c01 import summarise
 from spec import lang
 
 PROGRAMS = [
+("init_random_param", "x = Bernoulli(p)\nwhile true:\n    x = x + 1 {1/2} x\nend", 'p', ['x', 'x**2', 'x**3']),      # the parameter enters through a RANDOM initial value: d/dp E(x0**k) != d/dp E(x0)**k
 ("prob_param", "x = 0\nwhile true:\n    x = x + 1 {p} x - 1\nend", 'p', ['x', 'x**2']),
 ("coef_param", "x = 1\ny = 0\nwhile true:\n    x = a*x + 1\n    y = y + x {1/2} y\nend", 'a', ['x', 'y', 'x*y']),
 ("init_param", "x = c\ny = 1\nwhile true:\n    y = y + x**2\n    x = x + 1 {1/2} x\nend", 'c', ['x', 'y']),
